@@ -99,9 +99,13 @@ class RollingReduction(Expr):
                     type(self)(self.frame[columns], *self.operands[1:]),
                     *parent.operands[1:],
                 )
-            if len(columns) == 1:
-                columns = columns[0]
-            return type(self)(self.frame[columns], *self.operands[1:])
+            if len(columns) == 1 and parent.ndim == 1:
+                # a single reader of a single column
+                return type(self)(self.frame[columns[0]], *self.operands[1:])
+            return type(parent)(
+                type(self)(self.frame[columns], *self.operands[1:]),
+                *parent.operands[1:],
+            )
 
     @property
     def _is_blockwise_op(self):
